@@ -901,3 +901,117 @@ def split_or_guards(fn, ref_tests):
             if changed:
                 break
     return n_done
+
+
+# ---------------------------------------------------------------------------------------------------------
+# orientation of two-way branches (guard clause <-> wrapped body, swapped if/else with a negated test)
+
+_NEG_OP = {ast.Eq: ast.NotEq, ast.NotEq: ast.Eq, ast.Is: ast.IsNot, ast.IsNot: ast.Is, ast.In: ast.NotIn, ast.NotIn: ast.In}
+
+
+def negations(test):
+    """equivalent spellings of `not test` (the analysed tree already writes ordering comparisons with < and <=)"""
+    out = []
+    if isinstance(test, ast.UnaryOp) and isinstance(test.op, ast.Not):
+        out.append(copy.deepcopy(test.operand))
+    else:
+        out.append(ast.UnaryOp(op=ast.Not(), operand=copy.deepcopy(test)))
+    if isinstance(test, ast.Compare) and len(test.ops) == 1:
+        op = type(test.ops[0])
+        if op in _NEG_OP:
+            out.append(ast.Compare(left=copy.deepcopy(test.left), ops=[_NEG_OP[op]()], comparators=copy.deepcopy(test.comparators)))
+        elif op is ast.Lt:      # not a < b  ==  b <= a
+            out.append(ast.Compare(left=copy.deepcopy(test.comparators[0]), ops=[ast.LtE()], comparators=[copy.deepcopy(test.left)]))
+        elif op is ast.LtE:
+            out.append(ast.Compare(left=copy.deepcopy(test.comparators[0]), ops=[ast.Lt()], comparators=[copy.deepcopy(test.left)]))
+    if isinstance(test, ast.BoolOp):
+        parts = []
+        for v in test.values:
+            alts = negations(v)
+            # preferred spelling of each negated operand: x for `not x`, the flipped operator for a comparison
+            parts.append(alts[1] if len(alts) > 1 and isinstance(v, ast.Compare) else alts[0])
+        out.append(ast.BoolOp(op=ast.Or() if isinstance(test.op, ast.And) else ast.And(), values=parts))
+    if isinstance(test, ast.UnaryOp) and isinstance(test.op, ast.Not) and isinstance(test.operand, ast.BoolOp):
+        pass
+    for o in out:
+        ast.fix_missing_locations(ast.copy_location(o, test))
+    return out
+
+
+def _ref_negation(test, ref_tests):
+    from .core import unparse
+    if str(unparse(test, 400)) in ref_tests:
+        return None
+    for cand in negations(test):
+        if str(unparse(cand, 400)) in ref_tests:
+            return cand
+    return None
+
+
+def _is_plain_exit(body, kind):
+    """[`return`] / [`return None`] (kind 'func') or [`continue`] (kind 'loop')"""
+    if len(body) != 1:
+        return False
+    st = body[0]
+    if kind == "func":
+        return isinstance(st, ast.Return) and (st.value is None or (isinstance(st.value, ast.Constant) and st.value.value is None))
+    return isinstance(st, ast.Continue)
+
+
+def orient_tests(fn, ref_tests):
+    """Rewrite two-way branches whose test the reference does not have, but whose negation it has:
+         if N: A else: B                      ->  if T: B else: A
+         if N: B(leaves) ; rest               ->  if T: rest else: B      (then else-flattening / dropping a plain exit)
+         if N: rest      (last of fn / loop)  ->  if T: return/continue ; rest
+    All three are the same control-flow graph with the test negated."""
+    if isinstance(fn, ast.AsyncFunctionDef):
+        return 0
+    is_gen = any(isinstance(n, (ast.Yield, ast.YieldFrom)) for n in _own_nodes(fn))
+    n_done = 0
+    for _ in range(40):
+        changed = False
+        for holder, blk in list(_all_blocks(fn)):
+            if isinstance(holder, FUNC + (ast.ClassDef,)) and holder is not fn:
+                continue
+            # what falling off the end of this block means
+            if holder is fn and blk is fn.body:
+                kind = "func"
+            elif isinstance(holder, (ast.For, ast.While)) and blk is holder.body:
+                kind = "loop"
+            else:
+                kind = None
+            for i, st in enumerate(blk):
+                if not isinstance(st, ast.If):
+                    continue
+                T = _ref_negation(st.test, ref_tests)
+                if T is None:
+                    continue
+                if st.orelse:
+                    st.test, st.body, st.orelse = T, st.orelse, st.body
+                    changed = True
+                    break
+                rest = blk[i + 1:]
+                if _terminates(st.body) and rest:
+                    if any(isinstance(r, FUNC + (ast.ClassDef,)) for r in rest):
+                        continue
+                    B = st.body
+                    st.test, st.body, st.orelse = T, rest, B
+                    del blk[i + 1:]
+                    if kind is not None and _is_plain_exit(B, kind) and not (kind == "func" and is_gen and False):
+                        st.orelse = []
+                    changed = True
+                    break
+                if not rest and kind is not None and not _terminates(st.body):
+                    exit_st = ast.Return(value=None) if kind == "func" else ast.Continue()
+                    ast.fix_missing_locations(ast.copy_location(exit_st, st))
+                    body = st.body
+                    st.test, st.body = T, [exit_st]
+                    blk.extend(body)
+                    changed = True
+                    break
+            if changed:
+                n_done += 1
+                break
+        if not changed:
+            break
+    return n_done
